@@ -51,3 +51,52 @@ Definition acc_has (f : string) (l : list acc) (s : target * Z * aexp) : Prop :=
   Exists (fun a => acc_match a s) (accs_of f l).
 Definition acc_count (f : string) (l : list acc) (t : target) : nat :=
   length (filter (fun a => target_eqb (a_target a) t) (accs_of f l)).
+
+(* ---------------------------------------------------------------- guards (path conditions) *)
+(* the condition under which a statement is reached inside its function: conjunction of the enclosing `if`
+   conditions (negated in else-branches and after `if (c) return/continue`), atoms named by stable source text *)
+Inductive gexp :=
+| GTrue
+| GAtom (s : string)
+| GNot (g : gexp)
+| GAnd (a b : gexp)
+| GOr (a b : gexp).
+
+Fixpoint geval (env : string -> bool) (g : gexp) : bool :=
+  match g with
+  | GTrue => true
+  | GAtom s => env s
+  | GNot a => negb (geval env a)
+  | GAnd a b => geval env a && geval env b
+  | GOr a b => geval env a || geval env b
+  end.
+
+Record gacc := mkGacc { g_fn : string; g_target : target; g_exp : aexp; g_guard : gexp }.
+
+Fixpoint aexp_eqb (a b : aexp) : bool :=
+  match a, b with
+  | AVar s, AVar t => String.eqb s t
+  | AConst p, AConst q => Qeq_bool p q
+  | AAdd a1 a2, AAdd b1 b2 | ASub a1 a2, ASub b1 b2 | AMul a1 a2, AMul b1 b2 | ADiv a1 a2, ADiv b1 b2 =>
+      aexp_eqb a1 b1 && aexp_eqb a2 b2
+  | _, _ => false
+  end.
+
+Definition gaccs_of (f : string) (l : list gacc) : list gacc := filter (fun a => String.eqb (g_fn a) f) l.
+
+(* where an element coefficient goes: "if (s == s_hplus) total_h_x else if (s == s_h2o) total_o_x else master->total" *)
+Definition hp_atom : string := "master.s==s_hplus".
+Definition hw_atom : string := "master.s==s_h2o".
+Definition route_cond (env : string -> bool) (t : target) : bool :=
+  match t with
+  | T_H => env hp_atom
+  | T_O => negb (env hp_atom) && env hw_atom
+  | T_TOT => negb (env hp_atom) && negb (env hw_atom)
+  | _ => true
+  end.
+Definition is_route_target (t : target) : bool :=
+  match t with T_H | T_O | T_TOT => true | _ => false end.
+
+(* a routed statement can only be reached under its own routing condition *)
+Definition routing_ok (a : gacc) : Prop :=
+  forall env, geval env (g_guard a) = true -> route_cond env (g_target a) = true.
